@@ -11,5 +11,5 @@ CONSTANTS
   Pols = {"none", "next", "same", "losing"}
   MonSetDefault = {"C07", "C08", "C09", "C10", "C11", "C12", "C13", "C19"}
   Scope = "full"
-INVARIANTS MonitorsQuiet RejectedLeavesNoTrace
+INVARIANTS MonitorsQuiet RejectedLeavesNoTrace NoPanic
 CHECK_DEADLOCK FALSE
